@@ -381,11 +381,9 @@ func (c *MemConn) ReadStats() (reads int) {
 // the client (returns false) or the timeout expires (returns false).
 // pred is called with the connection's lock held: it must not call back.
 func (c *MemConn) WaitLines(timeout time.Duration, pred func(lines []string) bool) bool {
-	var tc <-chan time.Time
+	var deadline time.Time
 	if timeout > 0 {
-		t := time.NewTimer(timeout)
-		defer t.Stop()
-		tc = t.C
+		deadline = time.Now().Add(timeout)
 	}
 	for {
 		c.mu.Lock()
@@ -395,15 +393,29 @@ func (c *MemConn) WaitLines(timeout time.Duration, pred func(lines []string) boo
 		if ok {
 			return true
 		}
+		slice := DeadPollEvery
+		if timeout > 0 {
+			if rem := time.Until(deadline); rem <= 0 {
+				return false
+			} else if rem < slice {
+				slice = rem
+			}
+		}
+		t := time.NewTimer(slice)
 		select {
 		case <-ch:
+			t.Stop()
 		case <-c.closed:
+			t.Stop()
 			c.mu.Lock()
 			ok := pred(c.lines)
 			c.mu.Unlock()
 			return ok
-		case <-tc:
-			return false
+		case <-t.C:
+			// nothing happened for a while: if the process is provably dead, waiting longer is pointless
+			if ProveDead(DeadInterval).Dead {
+				return false
+			}
 		}
 	}
 }
